@@ -30,7 +30,7 @@ def problem_class():
             extra = kw.get("param_extra") or [{}] * n
             self.parameters = []
             for i in range(n):
-                p = {"name": "x%d" % i, "bounds": list(bounds[i])}
+                p = {"name": kw.get("param_names", ["x%d" % j for j in range(n)])[i], "bounds": list(bounds[i])}
                 p.update(extra[i] if i < len(extra) else {})
                 self.parameters.append(p)
             crit = kw.get("criteria") or ["minimize"]
